@@ -301,6 +301,21 @@ impl ServerWorker {
         // service factories initialization channel
         let (factory_tx, factory_rx) = std::sync::mpsc::sync_channel::<io::Result<()>>(1);
 
+        #[cfg(actix_net_verif)]
+        if crate::verif::active() {
+            drop((actix_system, tokio_handle, factory_tx, factory_rx));
+            return verif_worker::start_in_thread(
+                idx,
+                factories,
+                waker_queue,
+                config,
+                conn_rx,
+                stop_rx,
+                counter,
+                pair,
+            );
+        }
+
         // outline of following code:
         //
         // if system exists
@@ -729,3 +744,7 @@ fn wrap_worker_services(services: Vec<(usize, usize, BoxedServerService)>) -> Ve
             services
         })
 }
+
+#[cfg(actix_net_verif)]
+#[path = "verif_worker.rs"]
+pub(crate) mod verif_worker;
